@@ -240,6 +240,15 @@ def encFactorC (s : St) : CM Val := do
     sameAsFirst heads
     headVal heads
 
+/-- the slice `values[idx_value - n : idx_value]` of one subset's supplied values -/
+def encSlice (n idx : Nat) (row : List Val) : List Val := (row.take idx).drop (idx - n)
+
+/-- `Encoder.define_bitmap` for compressed data (finding F24b repaired): the 031031 values supplied for EVERY subset have to
+    equal those of subset 0, else `PyBufrKitError`.  Before the repair: `encLastValues` (subset 0 only). -/
+def encLastValuesC (n : Nat) (s : St) : CM (List Val) := do
+  let bm ← encLastValues n s
+  if s.vals.all (fun row => encSlice n s.idx row == bm) then pure bm else .error .lib
+
 def encPrimsC : Prims where
   numeric := encNumericC
   string := encStringC
@@ -247,7 +256,7 @@ def encPrimsC : Prims where
   newRefval := encNewRefvalC
   constant := encConstantC
   factorValue := encFactorC
-  lastValues := encLastValues
+  lastValues := encLastValuesC
 
 /-! ### `Encoder.process_template_data` -/
 
